@@ -3,7 +3,7 @@ import threading
 import time
 import traceback
 
-from vf.authkit import FenceTimeout, Rd, Sess, Short, episodes, sstr, u32
+from vf.authkit import FenceTimeout, Rd, Sess, Short, episodes, sstr, started, u32
 
 META = dict(
     title="a client refuses server-initiated actions it did not enable",
@@ -237,7 +237,10 @@ def judge_batch(ctx, sess, st, since_n, desc, sent):
 
 
 def run_session(ctx, rng, desc):
-    sess = Hostile(rng)
+    sess = started(lambda: Hostile(rng))
+    if sess is None:
+        ctx.inconclusive("handshake/auth with the hostile server failed three times")
+        return
     st = State()
     v = sess.victim
     ever = dict(x11=False, agent=False, tcp=False)
@@ -245,9 +248,6 @@ def run_session(ctx, rng, desc):
     cancelled = False
     read_any = 0
     try:
-        if not sess.start():
-            ctx.inconclusive("handshake/auth failed: %r" % sess.att.victim_exc)
-            return
         for op in desc["ops"]:
             if not v.is_active() or not sess.att.att.is_active():
                 ctx.count("session_ended_early")
